@@ -13,6 +13,7 @@ for f in "$dir"/*.diff; do
   res=$(tools/trymut.sh "$f" $ids 2>&1)
   caught=$(echo "$res" | grep -E "^== .* rc=1" | sed -E 's/^== (C[0-9]+) .*/\1/' | tr '\n' ' ')
   errs=$(echo "$res" | grep -E "^== .* rc=[23]" | sed -E 's/^== (C[0-9]+) rc=([0-9]).*/\1(exit \2)/' | tr '\n' ' ')
+  if echo "$res" | grep -q "patch does not apply"; then caught="**STALE: patch does not apply** "; fi
   first=$(echo "$res" | grep "counterexample" | head -1 | sed 's/  counterexample //' | cut -c1-160 | tr '|' '/')
   echo "| $b | $ids | ${caught:-**none**} $errs | $first |" >> "$out.tmp"
   echo "$b -> ${caught:-MISSED} $errs"
